@@ -60,6 +60,13 @@ def root_search_model(ctx, out, rr, rule="C15.root"):
                 if CW.is_const(a0) and CW.is_const(a1) and isinstance(a0[1], str) and isinstance(a1[1], str):
                     return CW.const(("" if a0[1] == "/" else a0[1]) + "/" + a1[1])
                 return None
+            if re.search(r"std::path::PathBuf::pop$", nm) and argv and argv[0][0] == "ref" and CW.is_const(a0) and isinstance(a0[1], str):
+                # in place: the path loses its last component (false at the root)
+                w.mut_handled = True
+                if a0[1] == "/":
+                    return CW.const(0)
+                w.write_place(env, {"l": argv[0][1], "p": [CW._thaw(x) for x in argv[0][2]]}, CW.const(a0[1].rsplit("/", 1)[0] or "/"))
+                return CW.const(1)
             if re.search(r"std::path::Path::(is_dir|exists|try_exists)$", nm) and CW.is_const(a0):
                 return CW.const(1 if a0[1] in dirs else 0)
             if re.search(r"std::path::Path::(to_path_buf|as_ref|to_owned)$|PathBuf::(as_path|from)$|Path::new$", nm) and CW.is_const(a0):
